@@ -648,3 +648,56 @@ class TreeGen(Gen):
         top = self.classes[-1]["name"]
         prog = {"enums": self.enums, "classes": [strip(c) for c in self.classes], "top": top}
         return prog
+
+
+# ---------------------------------------------------------------------------
+# class hierarchies (C07) and dynamic constraints (C06)
+# ---------------------------------------------------------------------------
+def simple_stmt(rng, fields):
+    """constraint statement whose lowering is trivial: range / comparison with a
+    same-signed literal / field-to-field comparison of equal signedness"""
+    f = rng.choice(fields)
+    w, s = f["w"], f["s"]
+    lo, hi = (-(1 << (w - 1)), (1 << (w - 1)) - 1) if s else (0, (1 << w) - 1)
+    fe = {"t": "f", "p": f["_p"]}
+    r = rng.random()
+    if r < 0.35:
+        a, b = sorted([rng.randint(lo, hi), rng.randint(lo, hi)])
+        return EXPR({"t": "in", "e": fe, "rl": [[a, b]]})
+    if r < 0.8:
+        return EXPR(BIN(rng.choice(["<", "<=", ">", ">=", "!=", "=="] if hi - lo > 1 else ["<=", ">=", "!="]),
+                        fe, LIT(rng.randint(lo, hi))))
+    same = [g for g in fields if g["s"] == s and g["_p"] != f["_p"]]
+    if same:
+        g = rng.choice(same)
+        return EXPR(BIN(rng.choice(["<", "<=", ">", ">=", "!="]), fe, {"t": "f", "p": g["_p"]}))
+    return EXPR(BIN("!=", fe, LIT(rng.randint(lo, hi))))
+
+
+def hierarchy(rng, depth=3, prefix="H"):
+    """chain of classes prefix0 <- prefix1 <- ...; derived classes add fields,
+    override some block names and add new blocks"""
+    classes = []
+    all_fields = []
+    block_names = []
+    for d in range(depth):
+        fields = []
+        for i in range(rng.randint(1, 2)):
+            w = rng.choice([2, 3, 3, 4])
+            fields.append({"n": "f%d_%d" % (d, i), "k": "s", "w": w,
+                           "s": rng.random() < 0.3, "r": True, "i": 0})
+        all_fields += [dict(f, _p=[f["n"]]) for f in fields]
+        blocks = []
+        # override some inherited names
+        for n in block_names:
+            if rng.random() < 0.5:
+                blocks.append({"n": n, "stmts": [simple_stmt(rng, all_fields)
+                                                 for _ in range(rng.randint(1, 2))]})
+        for i in range(rng.randint(1, 2)):
+            n = "c%d_%d" % (d, i)
+            block_names.append(n)
+            blocks.append({"n": n, "stmts": [simple_stmt(rng, all_fields)
+                                             for _ in range(rng.randint(1, 2))]})
+        classes.append({"name": "%s%d" % (prefix, d), "base": ("%s%d" % (prefix, d - 1)) if d else None,
+                        "fields": fields, "blocks": blocks})
+    return classes
